@@ -43,8 +43,9 @@ SUB_FORMATS_V4 = ["", "TS_$xxx/$yyyy", "/data/set5/TS_$xxxx/$yyyyyy", "tomo$xx/$
 def strategy(tier):
     export = st.fixed_dictionaries({
         "kind": st.just("export"),
-        "table": gen.table(1, 10, bulk_max=300, fields={"tomo_id": st.one_of(st.integers(1, 4), st.integers(1, 999)).map(float),
-                                                       "class": st.integers(0, 9).map(float)}),
+        "table": gen.table(1, 10, bulk_max=300, fields={"tomo_id": st.one_of(st.integers(1, 4), st.integers(1, 999), st.sampled_from([100000, 999999, 1000000, 1200001, 20230915])).map(float),
+                                                       "class": st.integers(0, 9).map(float)},
+                           id_strategy=st.one_of(st.integers(1, 5000), st.integers(1, 5000), st.integers(999990, 30000000))),  # numbers with more digits than the name padding
         "version": st.sampled_from([3.0, 3.1, 4.0]),
         "px": st.one_of(st.floats(0.3, 20, allow_nan=False), st.sampled_from([1.0, 2.67])),
         "tomo_fmt": st.integers(0, len(TOMO_FORMATS) - 1),
